@@ -220,6 +220,9 @@ def check_C03(chk):
     # races of the final drop with a blocked, timed or polling receive (wake driver)
     bins = build_all(chk, ["default", "inprocess"])
     if all(bins.values()):
+        # programs over the whole public API (sets, servers, regions, undecodable messages) against the model Api.v - the tie of the
+        # C03_api theorems - on both builds
+        api_stage(chk, "C03", bins, ["default", "inprocess"], 300 if thorough else 30, 60, seed_off=71)
         rng = random.Random(chk.seed + 3)
         cases, nid = [], itertools.count(1)
         for _ in range(400 if thorough else 60):
@@ -351,7 +354,12 @@ def check_C19(chk):
             m = brng.randint(1, 4)
             bcases.append({"id": 500000 + i, "plans": [([40] * brng.choice([3, 66, 100, 150]), True) for _ in range(m)], "late": [False] * m,
                            "mode": "after", "threads": 1, "level": "ipc"})
-        blines = ["id=%d plan=%s mode=after threads=1 eintr=0 level=ipc" % (c["id"], PS.plan_str(c["plans"])) for c in bcases]
+        # ... and several members that become ready in the OPPOSITE order of their ids, each with 20..40 results in one batch
+        for i in range(6 if thorough else 3):
+            m = brng.randint(2, 5)
+            bcases.append({"id": 500100 + i, "plans": [([40] * brng.randint(20, 40), True) for _ in range(m)], "late": [False] * m,
+                           "mode": "after", "threads": 1, "level": "ipc", "rev": True})
+        blines = ["id=%d plan=%s mode=after threads=1 eintr=0 level=ipc%s" % (c["id"], PS.plan_str(c["plans"]), " rev=1" if c.get("rev") else "") for c in bcases]
         for fl in ("default", "memfd", "inprocess"):
             brecs, _, brc, berr = C.run_harness(bins[fl], "rset", blines, shim=False, timeout=300)
             bby = {r["id"]: r for r in brecs if r.get("kind") == "rset"}
@@ -440,6 +448,9 @@ def check_C04(chk):
                               "endpoint identified by probing; non-trivial = programs with embedded endpoints", False, S=4096)
     if not bins:
         return
+    # programs over the whole public API (endpoints embedded in messages that travel through sets and servers, next to regions and
+    # undecodable messages) against the model Api.v - the tie of the C04_api theorems - on both builds
+    api_stage(chk, "C04", bins, ["default", "inprocess"], 300 if thorough else 30, 60, seed_off=73)
     # mixtures of senders, receivers and regions in one message, small and multi-packet (frag driver, identity probes)
     from . import frag as F2
     nid0 = itertools.count(1)
@@ -579,11 +590,14 @@ def check_C11(chk):
                               "non-trivial = programs with embedded endpoints", True)
     if not bins:
         return
+    # programs over the whole public API against the model Api.v - the tie of C11_api_held_exact / C11_api_quiescent; every program
+    # ends by dropping all its handles, after which the process must hold the descriptors and mappings it started with
+    api_stage(chk, "C11", bins, ["default", "memfd"], 300 if thorough else 30, 60, seed_off=79)
     n = 1000 if thorough else 40
     tmp = os.path.join(C.BUILD, "tmp", "res-%d" % os.getpid())
     os.makedirs(tmp, exist_ok=True)
     names = ["connect_missing", "server_unused", "server_cycle", "connect_after_accept", "shm_cycle", "set_cycle", "send_closed_att",
-             "undecoded_drop", "undecoded_low_fd", "server_bad_tmpdir", "router_cycle", "ser_fail_att", "connect_long", "server_noshow", "server_bad_first", "send_closed_big_att"]
+             "undecoded_drop", "undecoded_low_fd", "prefix_decode_fresh_thread", "server_bad_tmpdir", "router_cycle", "ser_fail_att", "connect_long", "server_noshow", "server_bad_first", "send_closed_big_att"]
     for fl in ("default", "memfd"):
         recs, trace, rc, err = C.run_harness(bins[fl], "res", ["scen name=%s n=%d" % (s, n) for s in names] + ["inherit"],
                                              env_extra={"TMPDIR": tmp}, timeout=900)
